@@ -43,9 +43,18 @@ def getObjIn (j : Json) : Except String Obj := do
     textItalic := ← getBool j "tItalic"
     fontSizeDefault := ← getInt j "fsDef" }
 
+def getStrs (j : Json) (k : String) : Except String (List String) := do
+  let a ← getArr j k
+  a.toList.mapM fun x => x.getStr?
+
 def getEdgeIn (j : Json) : Except String EdgeIn := do
+  let s ← getInt j "src"
+  let d ← getInt j "dst"
   pure {
-    src := ← getNat j "src", dst := ← getNat j "dst", srcArrow := ← getBool j "srcArrow", dstArrow := ← getBool j "dstArrow",
+    src := if s < 0 then none else some s.toNat, dst := if d < 0 then none else some d.toNat,
+    srcPath := ← getStrs j "srcPath", dstPath := ← getStrs j "dstPath",
+    srcTop := ← getStr j "srcTop", dstTop := ← getStr j "dstTop",
+    srcArrow := ← getBool j "srcArrow", dstArrow := ← getBool j "dstArrow",
     index := ← getNat j "index", style := ← getStyle j, textFontSize := ← getInt j "tfs" }
 
 /-- exported shape as observed: optional floats become `some` -/
@@ -92,6 +101,13 @@ def specPath (objs : Array Obj) : Nat → Nat → Option (List String)
 
 def specAbsID (objs : Array Obj) (i : Nat) : Option String :=
   (specPath objs (objs.size + 1) i).map fun p => ".".intercalate p
+
+/-- ID a connection must name for an end point: the ID of the shape exported for that object; for an end point that
+    is not an object of the graph (sequence-diagram lifeline end) the dotted chain of IDs on its parent chain -/
+def specEndpoint (objs : Array Obj) (i : Option Nat) (own : List String) (top : String) : Option String :=
+  match i with
+  | some i => specAbsID objs i
+  | none => some (".".intercalate ((if top == "" then [] else [top]) ++ own))
 
 /-- one failing clause of "every style value the user set appears unchanged", or none -/
 def userStyleShape (st : Style) (s : ShapeStyle) : Option String :=
@@ -198,8 +214,19 @@ def handleBoard (i o : Json) : Except String Verdict := do
   for k in [0:edges.size] do
     let e := edges[k]!
     let (_, src, dst, _) := conns[k]!
-    if specAbsID objs e.src != some src || specAbsID objs e.dst != some dst then
-      return .specfalse "connection-endpoints" s!"{ctx}: edge {k} joins {specAbsID objs e.src} and {specAbsID objs e.dst}, connection has src={src} dst={dst}"
+    let ws := specEndpoint objs e.src e.srcPath e.srcTop
+    let wd := specEndpoint objs e.dst e.dstPath e.dstTop
+    if ws != some src || wd != some dst then
+      return .specfalse "connection-endpoints" s!"{ctx}: edge {k} joins {ws} and {wd}, connection has src={src} dst={dst}"
+    -- an end point that is an object must be addressed by the chain the object tree gives (harness self-check)
+    match e.src with
+    | some si => if specPath objs (objs.size + 1) si != some e.srcPath then
+        return .mismatch "endpoint-path" s!"{ctx}: edge {k} src chain {e.srcPath} vs object tree {specPath objs (objs.size + 1) si}"
+    | none => pure ()
+    match e.dst with
+    | some di => if specPath objs (objs.size + 1) di != some e.dstPath then
+        return .mismatch "endpoint-path" s!"{ctx}: edge {k} dst chain {e.dstPath} vs object tree {specPath objs (objs.size + 1) di}"
+    | none => pure ()
   -- Spec-on-impl: user styles present -------------------------------------------------------------------------
   for k in [0:objs.size] do
     match userStyleShape objs[k]!.style shapes[k]!.2 with
